@@ -29,7 +29,7 @@ def check(run):
         nu = N.check_unwrap(run, F, FILES, AUDITED_UNWRAP)
         run.floor('NULL.unwrap', 'IsNone::unwrap sites in the aggregation files', nu, 15)
         N.check_only_trait(run, F, FILES)
-    if run.tier == 'thorough':
+    if True:    # the algebraic comparison takes a few seconds: part of the quick tier too
         import casrules
         run.rule('CAS.form', casrules.RULE)
         n = casrules.check_aggs(run, run.facts('base'))
@@ -43,7 +43,7 @@ def check(run):
         'wins); vfirst/vlast are find(not_none) from either end; counting/masking decision '
         'tables; mean / sample variance / sample covariance / Pearson r closed forms equal the '
         'textbook formulas over the same power sums (polynomial normal form). Skewness and '
-        'kurtosis closed forms are compared in the thorough tier only. Permutation invariance '
+        'kurtosis closed forms are compared by computer algebra. Permutation invariance '
         'and rounding are value statements and are not decided.',
         ASSUME, TRUSTED,
         'instances = aggregation functions x (gate, table, formula) + unwrap sites')
